@@ -15,12 +15,12 @@ from ..pool import guarded, run_cases
 
 THEOREMS = ["C07_cst_untouched", "C07_nothing_replaced_is_identity", "C07_one_node_replaced", "C07_header_reprint_shape",
             "C07_header_reprint_refuted", "C07_return_removed_shape", "C07_return_added", "C07_return_examples", "C07_doc_edit_outside", "C07_new_docstring_node_shape", "C07_doc_edit_examples", "C07_only_headers_and_docstrings_change", "C07_find_cst_first_match", "C07_find_cst_none", "C07_checker_sound",
-            "C07_failure_atomic", "C07_order_nonvacuous"]
+            "C07_failure_atomic", "C07_order_nonvacuous", "C07_header_untouched_by_reindent", "C07_reindent_refuted", "C07_reindent_example"]
 FN_NAMES = ["compute", "render", "fetch", "cache", "route", "handler", "store", "merge"]
 CLS_NAMES = ["Alpha", "Beta", "Gamma"]
 PARAMS = ["alpha", "beta", "gamma", "delta", "epsilon"]
 TYPES = ["int", "str", "float", "bool", "Optional[int]", "List[str]"]
-DEFAULTS = {"int": ["5", "-3"], "str": ["'why'", "'x y'", "'hello'", "'(x)'", "'a:b'", "'#no'", "'z'", "'%s'", "'a,b'", "'a -> b'", "'  '", "',  '", "'a   b'"], "float": ["0.5", "2.0"], "bool": ["True", "False"],
+DEFAULTS = {"int": ["5", "-3"], "str": ["'why'", "'x y'", "'hello'", "'(x)'", "'a:b'", "'#no'", "'z'", "'%s'", "'a,b'", "'a -> b'", "'  '", "',  '", "'a   b'", "'    '"], "float": ["0.5", "2.0"], "bool": ["True", "False"],
             "Optional[int]": ["None", "7"], "List[str]": ["None"]}
 DESCS = ["the first thing", "how many of them", "what to call it", "a switch", "where to look"]
 STYLES = ["rest", "google", "numpydoc"]
@@ -583,6 +583,12 @@ def run_case(c):
                 if not same_pos and ra is not None and rb is not None and \
                         [(x.arg, x.annotation is None) for x in ra.args.args] == [(x.arg, x.annotation is None) for x in rb.args.args]:
                     why = "/positional-annotation-rewritten"     # none added, none removed: an annotation that was there was changed
+                if why == "/positional-annotations-unchanged" and ra is not None and ra.body:
+                    # reindent_block_with_pass_body deletes the FIRST run of four blanks anywhere in the header (C07_reindent_refuted): a
+                    # header that has one (a string default such as '    ') then parses differently and is re-printed -- on the pinned tree too
+                    hdr = "\n".join(l.lstrip() for l in src.split("\n")[ra.lineno - 1: max(ra.lineno, ra.body[0].lineno - 1)])
+                    if "    " in hdr:
+                        why += "/four-blanks-in-header"
                 for k in kinds:
                     res["problems"].append(("program/header-reprint-drops-" + k + why, {"def": q, "before": sig(a),
                                                                                   "after": sig(b)}))
@@ -916,6 +922,15 @@ def run(ctx):
     for cls, det, c in items:
         ctx.item(cls, {"stage": "cdd.compound.doctrans.doctrans on generated modules", "clause": cls,
                        "input": {k: c[k] for k in ("fmt", "type_annotations", "no_word_wrap", "src")} if c else None, "detail": det})
+    # Model/Reindent.v (C07_header_untouched_by_reindent) against cst_utils.reindent_block_with_pass_body on generated header texts
+    RA = ["def f(", "a", ", ", "b=1", "sep=',  '", "pad='    '", "):", " ", "    ", "\n", "        ", "x: int", "*rest", "-> int:", "async ", "'  '", "\t"]
+    rtexts = ["".join(ctx.rng.choice(RA) for _ in range(ctx.rng.randint(1, 9))) for _ in range(400 if ctx.quick else 10000)] + \
+        ["    def f(a, indent='    '):", "def g(\n    a,\n    b=2,\n):", "        async def h(x: int = 5, *rest, sep=',  ') -> int:"]
+    from cdd.shared.cst_utils import reindent_block_with_pass_body as _rb
+    for t_, m_ in zip(rtexts, call_many("reindent_block", rtexts)):
+        if _rb(t_) != m_:
+            corr.append({"stage": "reindent_block_with_pass_body", "value": t_, "impl": _rb(t_), "model": m_})
+    agg["reindent_texts"] = len(rtexts)
     if not ctx.violations:
         if corr:
             ctx.violation({"stage": "correspondence: Model/Doctrans.v header_reprint vs cdd.shared.ast_cst_utils.maybe_replace_function_args",
